@@ -110,6 +110,9 @@ func (c *Ctx) ConstVal(spec string) (int64, bool) {
 	pkg, name := full[:i], full[i+1:]
 	sp := c.P.SSAPkgs[pkg]
 	if sp == nil {
+		sp = c.P.SSA.ImportedPackage(pkg)
+	}
+	if sp == nil {
 		c.Undecided("anchor:"+spec, nil, "anchor-unresolved: package "+pkg)
 		return 0, false
 	}
@@ -320,4 +323,110 @@ func instrLabel(in ssa.Instruction) string {
 		return "panic"
 	}
 	return in.String()
+}
+
+// PGlobal: v is a load of the package-level variable spec (e.g. ccv.V1Result).
+func PGlobal(spec string) Pat {
+	full := q(spec)
+	return func(v ssa.Value) bool {
+		g, ok := globalLoad(v)
+		if !ok || g.Pkg == nil {
+			return false
+		}
+		return g.Pkg.Pkg.Path()+"."+g.Name() == full
+	}
+}
+
+// PIndex: v = base[i] for a constant i.
+func PIndex(base Pat, i int64) Pat {
+	return func(v ssa.Value) bool {
+		u, ok := strip(v).(*ssa.UnOp)
+		if !ok || u.Op != token.MUL {
+			return false
+		}
+		ia, ok := u.X.(*ssa.IndexAddr)
+		if !ok {
+			return false
+		}
+		if n, ok := constInt(ia.Index); !ok || n != i {
+			return false
+		}
+		return base(ia.X)
+	}
+}
+
+// PElemOf: v is an element (loop variable / indexed read) of a slice matching base.
+func PElemOf(base Pat) Pat {
+	return func(v ssa.Value) bool {
+		rs := elementSource(v)
+		if len(rs) == 0 {
+			return false
+		}
+		for _, r := range rs {
+			if !base(r) {
+				return false
+			}
+		}
+		return true
+	}
+}
+
+// reachableReturns lists the returns of fn reachable under the scenario.
+func reachableReturns(fn *ssa.Function, lits ...Lit) []*ssa.Return {
+	r, _ := reachUnder(fn, lits...)
+	reach := r.From(nil)
+	var out []*ssa.Return
+	for _, ret := range Returns(fn) {
+		if reach[ret] {
+			out = append(out, ret)
+		}
+	}
+	return out
+}
+
+// phiValuesUnder: the non-phi values that can flow into v at instruction `at` under the scenario
+// (incoming phi edges from blocks unreachable under the scenario, or over cut edges, are dropped).
+func valuesUnder(v ssa.Value, fn *ssa.Function, lits ...Lit) []ssa.Value {
+	r, _ := reachUnder(fn, lits...)
+	reach := r.From(nil)
+	blockReach := map[*ssa.BasicBlock]bool{}
+	for in := range reach {
+		blockReach[in.Block()] = true
+	}
+	seen := map[ssa.Value]bool{}
+	var out []ssa.Value
+	var walk func(v ssa.Value)
+	walk = func(v ssa.Value) {
+		v = strip(v)
+		if seen[v] {
+			return
+		}
+		seen[v] = true
+		if p, ok := v.(*ssa.Phi); ok {
+			b := p.Block()
+			for i, e := range p.Edges {
+				pred := b.Preds[i]
+				if !blockReach[pred] || r.CutEdges[edge{pred, b}] {
+					continue
+				}
+				walk(e)
+			}
+			return
+		}
+		out = append(out, v)
+	}
+	walk(v)
+	return out
+}
+
+// NoPathAfterWhen: under the scenario there is no path from `from` (after it executed) to `to`.
+func (c *Ctx) NoPathAfterWhen(from, to ssa.Instruction, key string, lits ...Lit) bool {
+	r, counts := reachUnder(from.Parent(), lits...)
+	for i, n := range counts {
+		if n == 0 {
+			return c.Check(false, key, to, fmt.Sprintf("no branch tests %q (scenario %s)", lits[i].A.Name, litsString(lits)))
+		}
+	}
+	ok := !r.After(from)[to]
+	return c.Check(ok, key, to, fmt.Sprintf("%s is not reachable after %s when %s", instrLabel(to), instrLabel(from), litsString(lits)))
 }
